@@ -216,6 +216,19 @@ theorem C20_forward (ops : List FOp) :
   | nil => exact h0
   | cons op ops ih => exact ih _ (finv_step s op h0)
 
+/-- **every request the scheduler is given is accounted for exactly once**: after any history, a
+    request is found in exactly as many places (handed to a master, failed, canceled, still waiting)
+    as it arrived - once for requests with distinct uids; nothing is duplicated, nothing is lost -/
+theorem C20_accounted (ops : List FOp) (t : Nat) :
+    cnt (ops.foldl fwdStep { queues := [], backlog := [], delivered := [], failed := [], canceled := [] }) t
+      = (arrived ops).count t := by
+  have := cnt_run ops t { queues := [], backlog := [], delivered := [], failed := [], canceled := [] } (by simp [KeysNodup])
+  simpa [cnt, waiting] using this
+
+/-- ... and what is handed over goes to a registered master -/
+theorem C20_round_robin_targets (qs ts : List Nat) : ∀ e ∈ roundRobin qs ts, e.1 ∈ qs :=
+  rrFrom_fst qs ts 0
+
 /-- requests that waited are handed over when their master registers -/
 example : (([FOp.incoming [(some 1, [0]), (none, [1, 2])], .register 1].foldl fwdStep
             { queues := [], backlog := [], delivered := [], failed := [], canceled := [] }).delivered)
